@@ -24,6 +24,9 @@ import (
 type Case struct {
 	Gen  prog.Generated `json:"gen"`
 	Text string         `json:"text"`
+	// TextFacts: the facts of Gen.Prog stay in the program text handed to both evaluators (otherwise they are
+	// loaded into the start stores together with Gen.Extra and the text holds the rules only).
+	TextFacts bool `json:"textFacts,omitempty"`
 }
 
 type verdict struct {
@@ -46,9 +49,26 @@ func baseFacts(run *stats.Run, f stats.Failer, g prog.Generated) []prog.Fact {
 func check(run *stats.Run, f stats.Failer, c Case) verdict {
 	var v verdict
 	rulesOnly := c.Gen.Prog
-	rulesOnly.Facts = nil
+	gen := c.Gen
+	// Facts of predicates that also have rules always stay in the program text (the naive entry point rejects a
+	// program that defines a predicate the start store already knows). With TextFacts all other text facts stay in
+	// the text too; otherwise they are loaded into the start stores together with the pre-loaded ones.
+	heads := map[string]bool{}
+	for _, r := range c.Gen.Prog.Rules {
+		heads[r.Head.Pred] = true
+	}
+	var inText, loaded []prog.Atom
+	for _, a := range c.Gen.Prog.Facts {
+		if c.TextFacts || heads[a.Pred] {
+			inText = append(inText, a)
+		} else {
+			loaded = append(loaded, a)
+		}
+	}
+	rulesOnly.Facts = inText
+	gen.Prog.Facts = loaded
 	text := rulesOnly.Source()
-	facts := baseFacts(run, f, c.Gen)
+	facts := baseFacts(run, f, gen)
 
 	// The reference model comes first: a program whose model is not finite within the caps (only the
 	// structural minimiser produces such candidates, by removing an arithmetic guard) gets no verdict and is
@@ -203,12 +223,19 @@ func factsText(fs []prog.Fact) string {
 
 func (c Case) hash() uint64 {
 	b, _ := json.Marshal(c.Gen)
-	return stats.Hash(string(b))
+	return stats.Hash(string(b), fmt.Sprint(c.TextFacts))
 }
 
 func genCase(t *rapid.T) Case {
 	o := prog.AllFeatures
 	o.Let = false
+	if rapid.IntRange(0, 7).Draw(t, "factless") == 0 {
+		// no facts at all and empty start stores: the first rules fire from equalities and built-ins alone
+		g := prog.GenFactless(o).Draw(t, "factlessProg")
+		c := Case{Gen: g, TextFacts: true}
+		c.Text = g.Prog.Source()
+		return c
+	}
 	g := prog.Gen(o).Draw(t, "prog")
 	// every extensional predicate gets at least one fact, otherwise the naive entry point does not know it.
 	have := map[string]bool{}
@@ -229,9 +256,28 @@ func genCase(t *rapid.T) Case {
 		}
 	}
 	c := Case{Gen: g}
-	r := g.Prog
-	r.Facts = nil
-	c.Text = r.Source()
+	// All facts of a predicate go one way: into the text when the predicate has rules or when one of its facts
+	// is in the text already, else into the store.
+	inText := map[string]bool{}
+	for _, r := range c.Gen.Prog.Rules {
+		inText[r.Head.Pred] = true
+	}
+	c.TextFacts = rapid.IntRange(0, 2).Draw(t, "textFacts") > 0
+	if c.TextFacts {
+		for _, a := range c.Gen.Prog.Facts {
+			inText[a.Pred] = true
+		}
+	}
+	var keep []prog.Atom
+	for _, a := range c.Gen.Extra {
+		if inText[a.Pred] {
+			c.Gen.Prog.Facts = append(c.Gen.Prog.Facts, a)
+		} else {
+			keep = append(keep, a)
+		}
+	}
+	c.Gen.Extra = keep
+	c.Text = c.Gen.Prog.Source()
 	return c
 }
 
@@ -267,7 +313,7 @@ func minimize(t *testing.T, run *stats.Run) {
 		return
 	}
 	fails := func(g prog.Generated) bool {
-		failed, _ := run.Fails(func(f stats.Failer) { check(run, f, Case{Gen: g}) })
+		failed, _ := run.Fails(func(f stats.Failer) { check(run, f, Case{Gen: g, TextFacts: c.TextFacts}) })
 		return failed
 	}
 	if !fails(c.Gen) {
